@@ -516,14 +516,16 @@ func (p *parser) power(lhs ast.Expression) ast.Expression {
 			expr := p.unary()
 
 			lhs = &ast.BinaryExpr{
+				// in the source the degree comes first: die <lhs>. Wurzel von <expr>
 				Range: token.Range{
-					Start: expr.GetRange().Start,
-					End:   lhs.GetRange().End,
+					Start: lhs.GetRange().Start,
+					End:   expr.GetRange().End,
 				},
 				Tok:      *tok,
 				Lhs:      expr,
 				Operator: ast.BIN_POW,
 				Rhs: &ast.BinaryExpr{
+					Range: lhs.GetRange(),
 					Lhs: &ast.IntLit{
 						Literal: lhs.Token(),
 						Value:   1,
